@@ -320,6 +320,40 @@ fn failover_violations(pre: &MetaStore, post: &MetaStore, cluster: &str, victim:
     out
 }
 
+fn rebalance_violations(pre: &MetaStore, post: &MetaStore, cluster: &str, failed: &str) -> Vec<String> {
+    // a rebalance while `failed` is still down: no master goes back to it, and the chunk it belongs to keeps its owners
+    let mut out = vec![];
+    let (a, b) = match (pre.get_cluster_by_name(cluster, 0), post.get_cluster_by_name(cluster, 0)) {
+        (Some(a), Some(b)) => (a, b),
+        _ => return out,
+    };
+    for n in b.get_nodes() {
+        if n.get_proxy_address() == failed && n.get_role() == Role::Master {
+            out.push(format!("C06/rebalance-returns-masters-to-failed-proxy node={}", n.get_address()));
+        }
+    }
+    let owned = |n: &Node| -> Vec<(usize, usize)> {
+        n.get_slots()
+            .iter()
+            .filter(|sr| !matches!(sr.tag, SlotRangeTag::Importing(_)))
+            .flat_map(|sr| sr.get_range_list().get_ranges().iter().map(|r| (r.start(), r.end())).collect::<Vec<_>>())
+            .collect()
+    };
+    for n in a.get_nodes() {
+        let in_failed_chunk = n.get_proxy_address() == failed || n.get_repl_meta().get_peers().iter().any(|p| p.proxy_address == failed);
+        if !in_failed_chunk {
+            continue;
+        }
+        let after = b.get_nodes().iter().find(|m| m.get_address() == n.get_address()).map(owned).unwrap_or_default();
+        for (s0, e0) in owned(n) {
+            if !after.iter().any(|(x, y)| *x <= s0 && e0 <= *y) {
+                out.push(format!("C06/rebalance-moves-slots-of-failed-chunk node={} range={}-{}", n.get_address(), s0, e0));
+            }
+        }
+    }
+    out
+}
+
 fn s(v: &Value) -> String {
     v.as_str().expect("string arg").to_string()
 }
@@ -391,6 +425,9 @@ fn verif_replay_broker() {
             }
             if has("failover") && opname == "replace_failed_proxy" {
                 v.extend(failover_violations(pre, post, &cluster, op["args"][0].as_str().unwrap_or("")));
+            }
+            if has("rebalance") && opname == "balance_masters" {
+                v.extend(rebalance_violations(pre, post, &cluster, spec["failed_proxy"].as_str().unwrap_or("")));
             }
             if has("replacement") && opname == "replace_failed_proxy" {
                 v.extend(replacement_violations(pre, post, op["args"][0].as_str().unwrap_or(""), result));
